@@ -101,7 +101,8 @@ CUSTOM_NAMES = {
 
 INDEX_SENSITIVE = {"whole_type", "i8_many_before_later", "n255_holes", "n256_gapless", "n257_holes", "gapless_from_min",
                    "gapless_to_max", "touch_min_max", "first_run_at_min", "neg_later_runs", "neg_many_runs",
-                   "run_at_min_then_neg", "gapless_neg", "gapless_span0", "last_run_at_max", "narrow_limits_holes"}
+                   "run_at_min_then_neg", "gapless_neg", "gapless_span0", "last_run_at_max", "narrow_limits_holes",
+                   "many_runs_uneven", "many_runs_uneven_neg", "across_narrow_umax"}
 
 
 def catalogue_cases(ids: IdGen, tier: str, seed: int = 1):
@@ -125,7 +126,7 @@ def catalogue_cases(ids: IdGen, tier: str, seed: int = 1):
             orders = ["perm", "asc"] if tier == "quick" else ["asc", "desc", "perm"]
             order = orders[(si + ri) % len(orders)]
             spelling = ["mixed", "dec", "implicit", "hex"][(si + ri) % 4]
-            renames = ["first", "none", "pool", "swap", "dups"][(si + 2 * ri) % 5]
+            renames = ["first", "none", "pool", "swap", "dups", "multibyte"][(si + 2 * ri) % 6]
             if len(vs) > 64:
                 renames = ["first", "all", "pool"][(si + ri) % 3]
             seq = shapes.order_values(vs, order, rng)
@@ -166,6 +167,7 @@ def c09_decls(tier: str):
         ("u8", [1, 2, 4, 5, 6, 7, 8, 200, 255], "perm", "dups"),
         ("i16", [-3, -2, -1, 0, 1, 2], "desc", "swap"),
         ("u32", [7, 9], "asc", "none"),
+        ("i16", [-9, -7, -6, 0, 2, 3, 4, 9, 11, 12, 13, 14], "perm", "multibyte"),
     ]
     if tier != "quick":
         specs += [
@@ -696,7 +698,9 @@ def dom_corpus(tier: str, seed: int):
             v.rename_text = txt
         add(dd, {"feat": ["rename_spelling"]}, modes_i=ri)
         # 4c. enums named like prelude / core items, repr given through cfg_attr and before the derive
-        for ename in (["Option", "Copy"] if tier == "quick" else ["Option", "Result", "Iterator", "Copy", "Some", "e", "Ordering", "String"]):
+        # (single letters: the names generic parameters of generated methods would have)
+        for ename in (["Option", "Copy", "B", "F"] if tier == "quick" else
+                      ["Option", "Result", "Iterator", "Copy", "Some", "e", "Ordering", "String", "B", "F", "T", "I", "R", "S", "Item"]):
             dd = make_decl(r, [("A", None, None), ("B", "5", "b"), ("C", None, None), ("D", "2", None)], shape="dom_enum_named_" + ename)
             dd.name = ename
             add(dd, {"feat": ["enum_name", "implicit_after_explicit"]}, modes_i=ri)
